@@ -547,6 +547,18 @@ class SymbolKindFinder:
                         result.set(phase_name, ident, kind=Integer())
 
                     if stmt.assignee_subscript:
+                        # Only arrays are subscripted: an element assignment
+                        # makes the assignee an array of (at least) the
+                        # scalar kind being stored.
+                        try:
+                            kind = kim(flatten(stmt.expression))
+                        except UnableToInferKind:
+                            pass
+                        else:
+                            if isinstance(kind, (Scalar, Integer)):
+                                result.set(phase_name, stmt.assignee,
+                                        kind=Array(is_real_valued=getattr(
+                                            kind, "is_real_valued", True)))
                         continue
 
                     try:
